@@ -12,6 +12,7 @@ class C18(Monitor):
 
     def start(self, w):
         self.knob = w.cfg['knobs'].get('MAX_CLOSED_STREAMS', 65536)
+        self.backlog = w.cfg['knobs'].get('CONTINUATION_BACKLOG', 64)
 
     def on_step(self, w, s):
         if s.kind != 'recv' or s.ok or not s.exc['proto']:
@@ -83,6 +84,8 @@ class C18(Monitor):
             for x in blk:
                 if x.length > mine[C.S_MAX_FRAME_SIZE]:
                     return C.FRAME_SIZE_ERROR, 'frame longer than MAX_FRAME_SIZE'
+            if len(blk) > self.backlog:
+                return None, None       # over the CONTINUATION cap: refused before the block is looked at (C27)
             if f.type == C.PUSH_PROMISE and not mine.get(C.S_ENABLE_PUSH, 1):
                 return C.PROTOCOL_ERROR, 'PUSH_PROMISE with push disabled'
             if f.hpack_error and not f.hpack_error.startswith('not-decoded'):
